@@ -95,6 +95,44 @@ pub fn normal_form(ops: &[(Option<String>, usize, &'static str)]) -> Vec<String>
     out
 }
 
+/// C16 on a tree BUILT BOTTOM-UP through the public API: every nested sequence is created (as a dangling sequence) before the sequence that
+/// contains it, so sequence identifiers DEcrease along the nesting; the traversals must report such a tree exactly like the parsed original
+#[derive(Default)] struct ShapeRec { log: Vec<String> }
+impl<'a> ir::Visitor<'a> for ShapeRec {
+    fn start_instr_seq(&mut self, _: &'a ir::InstrSeq) { self.log.push("S".into()); }
+    fn end_instr_seq(&mut self, _: &'a ir::InstrSeq) { self.log.push("E".into()); }
+    fn visit_instr(&mut self, i: &'a ir::Instr, _: &'a ir::InstrLocId) { let d = format!("{:?}", i); self.log.push(d.split(|c: char| c == '(' || c == ' ' || c == '{').next().unwrap_or("").to_string()); }
+}
+#[derive(Default)] struct CountMut { n: usize }
+impl ir::VisitorMut for CountMut { fn visit_instr_mut(&mut self, _: &mut ir::Instr, _: &mut ir::InstrLocId) { self.n += 1; } }
+fn bottom_up_twin(m: &mut Module, fid: walrus::FunctionId) -> Option<walrus::FunctionId> {
+    use std::collections::HashMap;
+    let (params, results) = { let lf = m.funcs.get(fid).kind.unwrap_local(); let t = m.types.get(lf.ty()); (t.params().to_vec(), t.results().to_vec()) };
+    let new_args: Vec<walrus::LocalId> = params.iter().map(|t| m.locals.add(*t)).collect();
+    let mut b = walrus::FunctionBuilder::new(&mut m.types, &params, &results);
+    let orig = m.funcs.get(fid).kind.unwrap_local();
+    let lmap: HashMap<walrus::LocalId, walrus::LocalId> = orig.args.iter().cloned().zip(new_args.iter().cloned()).collect();
+    let mut idmap: HashMap<ir::InstrSeqId, ir::InstrSeqId> = HashMap::new();
+    // children first (post-order); branch targets are patched afterwards
+    fn build(b: &mut walrus::FunctionBuilder, orig: &LocalFunction, seq: ir::InstrSeqId, top: bool, idmap: &mut std::collections::HashMap<ir::InstrSeqId, ir::InstrSeqId>, lmap: &std::collections::HashMap<walrus::LocalId, walrus::LocalId>) {
+        let items: Vec<ir::Instr> = orig.block(seq).instrs.iter().map(|(i, _)| i.clone()).collect();
+        for it in &items { match it { ir::Instr::Block(ir::Block { seq: c }) | ir::Instr::Loop(ir::Loop { seq: c }) => build(b, orig, *c, false, idmap, lmap), ir::Instr::IfElse(ir::IfElse { consequent, alternative }) => { build(b, orig, *alternative, false, idmap, lmap); build(b, orig, *consequent, false, idmap, lmap); } _ => {} } }
+        let id = if top { b.func_body_id() } else { b.dangling_instr_seq(orig.block(seq).ty).id() };
+        idmap.insert(seq, id);
+        let mut sb = b.instr_seq(id);
+        for it in items { let it = match it { ir::Instr::Block(ir::Block { seq: c }) => ir::Instr::Block(ir::Block { seq: idmap[&c] }), ir::Instr::Loop(ir::Loop { seq: c }) => ir::Instr::Loop(ir::Loop { seq: idmap[&c] }),
+            ir::Instr::IfElse(ir::IfElse { consequent, alternative }) => ir::Instr::IfElse(ir::IfElse { consequent: idmap[&consequent], alternative: idmap[&alternative] }),
+            ir::Instr::LocalGet(e) => ir::Instr::LocalGet(ir::LocalGet { local: *lmap.get(&e.local).unwrap_or(&e.local) }), ir::Instr::LocalSet(e) => ir::Instr::LocalSet(ir::LocalSet { local: *lmap.get(&e.local).unwrap_or(&e.local) }), ir::Instr::LocalTee(e) => ir::Instr::LocalTee(ir::LocalTee { local: *lmap.get(&e.local).unwrap_or(&e.local) }),
+            other => other }; sb.instr(it); }
+    }
+    build(&mut b, orig, orig.entry_block(), true, &mut idmap, &lmap);
+    // now every sequence exists: retarget the branches
+    let new_ids: Vec<ir::InstrSeqId> = idmap.values().cloned().collect();
+    for id in new_ids { let mut sb = b.instr_seq(id); for (i, _) in sb.instrs_mut().iter_mut() { match i { ir::Instr::Br(x) => x.block = *idmap.get(&x.block)?, ir::Instr::BrIf(x) => x.block = *idmap.get(&x.block)?,
+        ir::Instr::BrTable(x) => { let mut v = vec![]; for t in x.blocks.iter() { v.push(*idmap.get(t)?); } x.blocks = v.into(); x.default = *idmap.get(&x.default)?; } _ => {} } } }
+    Some(b.finish(new_args, &mut m.funcs))
+}
+
 pub fn main(args: &[String]) {
     let out_dir = &args[0]; let seed: u64 = args[1].parse().unwrap(); let n_modules: usize = args[2].parse().unwrap(); let thorough = args.get(3).map(|s| s == "thorough").unwrap_or(false);
     let mut r = Rng::new(seed);
@@ -216,6 +254,20 @@ pub fn main(args: &[String]) {
             let sig = format!("{:?}", body_in.ops.iter().map(|o| o.0.clone()).collect::<Vec<_>>());
             if distinct.insert(sig) { w.push(&line); if samples.len() < 2 && body_in.ops.len() > 6 && body_in.ops.len() < 16 { samples.push(ops_in.join("; ")); } }
         }
+        // --- the same functions rebuilt bottom-up through the builder API (C16 / C15)
+        { let fids: Vec<walrus::FunctionId> = obs.module.funcs.iter_local().map(|(id, _)| id).collect();
+          for fid in fids { let r = catch(|| -> Option<(Vec<String>, Vec<String>, usize, usize, bool)> { let m = &mut obs.module;
+                let twin = bottom_up_twin(m, fid)?;
+                let shape = |m: &Module, f: walrus::FunctionId| { let lf = m.funcs.get(f).kind.unwrap_local(); let mut rec = ShapeRec::default(); dfs_in_order(&mut rec, lf, lf.entry_block()); rec.log };
+                let (a, b2) = (shape(m, fid), shape(m, twin));
+                let count = |m: &mut Module, f: walrus::FunctionId| { let lf = m.funcs.get_mut(f).kind.unwrap_local_mut(); let e = lf.entry_block(); let mut c = CountMut::default(); dfs_pre_order_mut(&mut c, lf, e); c.n };
+                let (ca, cb) = (count(m, fid), count(m, twin));
+                let nested = { let lf = m.funcs.get(twin).kind.unwrap_local(); irdump::seq_ids(lf).len() > 2 };
+                m.funcs.delete(twin); Some((a, b2, ca, cb, nested)) });
+              match r { Some(Some((a, b2, ca, cb, _))) => { if a != b2 { viol.push(Json::obj(vec![("class", Json::s("dfs_in_order:traversal-differs-on-bottom-up-built-tree")), ("props", Json::s("C16 C15")), ("what", Json::s(format!("function id {}: rebuilt bottom-up through the builder API (nested sequences created before their parents) dfs_in_order reports {} events, on the parsed original {}", fid.index(), b2.len(), a.len()))), ("input", Json::s(crate::c03::hex(&wasm))), ("observed", Json::s(b2.join(" "))), ("expected", Json::s(a.join(" ")))])); }
+                      if ca != cb { viol.push(Json::obj(vec![("class", Json::s("dfs_pre_order_mut:traversal-differs-on-bottom-up-built-tree")), ("props", Json::s("C16 C15")), ("what", Json::s(format!("function id {}: rebuilt bottom-up dfs_pre_order_mut visits {} instructions, on the parsed original {}", fid.index(), cb, ca))), ("input", Json::s(crate::c03::hex(&wasm)))])); } }
+                  Some(None) => {},
+                  None => viol.push(Json::obj(vec![("class", Json::s("builder-panics-bottom-up")), ("props", Json::s("C15 C16")), ("what", Json::s(format!("function id {}: rebuilding it bottom-up through the builder API or traversing the result panics", fid.index()))), ("input", Json::s(crate::c03::hex(&wasm)))])) } } }
     }
     w.finish();
     let mut top: Vec<(&&str, &u64)> = op_hist.iter().collect(); top.sort_by(|a, b| b.1.cmp(a.1));
